@@ -174,6 +174,19 @@ def build_input(rng, kind, kind2=None):
         tens = it.tensor(indices=names, return_sympy=True)
         e = Expr(tens ** 2 * rng.choice([1, Rational(1, 2), -1]), real=True, target_idx=get_symbols(names))
         return e, f"square:{name}"
+    if kind == "polysquare":
+        # a sum containing an intermediate raised to the second power (not expanded: a Polynom)
+        name = rng.choice(["t2_1", "t1_2", "p0_2_oo", "p0_2_vv", "t2eri_3", "t2eri_4", "t2sq"])
+        it = avail[name]
+        pool_o, pool_v = list("ijklmn"), list("abcdef")
+        rng.shuffle(pool_o)
+        rng.shuffle(pool_v)
+        names = [pool_o.pop() if x in "ijklmno" else pool_v.pop() for x in it.default_idx]
+        tens = it.tensor(indices=names, return_sympy=True)
+        syms = get_symbols(names)
+        other = NonSymmetricTensor("c", tuple(syms)) * rng.choice([1, 2, Rational(-1, 2)])
+        e = Expr((tens + other) ** 2 * rng.choice([1, Rational(1, 2), -1]), real=True, target_idx=syms)
+        return e, f"polysquare:{name}"
     if kind == "long":
         # a long intermediate (several terms) times an ERI with shared indices, like the
         # repository's own factorisation tests; used with rescaled terms (mixed prefactors)
@@ -329,6 +342,8 @@ def main():
         items.append(("long", "factor", base + 7000 + k))
     for k in range(8 if quick else 60):
         items.append(("square", ["expand", "reduce"][k % 2], base + 8000 + k))
+    for k in range(6 if quick else 40):
+        items.append(("polysquare", "expand", base + 9000 + k))
     results = pmap(run_case, items, limit=90 if quick else 1200, workers=15)
     for r in results:
         if r.get("status") == "timeout":
